@@ -18,6 +18,8 @@ _RWS = r"\s+"
 _INTEGER = r"[+-]?\d+"
 _DATE = r"[1-9]\d{3}-(?:0\d|1[0-2])-(?:[0-2]\d|3[01])"
 _TIME = r"(?:[01]\d|2[0-3]):[0-5]\d(:?:[0-5]\d(?:\.\d{1,12})?)"
+# Keywords must not swallow the start of a longer identifier (`nullable`, `anything`):
+_NOT_IDENTIFIER = r"(?!\.?\w)"
 
 # Defines known functions and min/max nr of args:
 ODATA_FUNCTIONS = {
@@ -189,13 +191,13 @@ class ODataLexer(Lexer):
         t.value = ast.Integer(t.value)
         return t
 
-    @_(r"true|false")
+    @_(r"(?:true|false)" + _NOT_IDENTIFIER)
     def BOOLEAN(self, t):
         ":meta private:"
         t.value = ast.Boolean(t.value)
         return t
 
-    @_(r"null")
+    @_(r"null" + _NOT_IDENTIFIER)
     def NULL(self, t):
         ":meta private:"
         t.value = ast.Null()
@@ -309,13 +311,13 @@ class ODataLexer(Lexer):
     ####################################################################################
     # Collection operators
     ####################################################################################
-    @_(r"any")
+    @_(r"any" + _NOT_IDENTIFIER)
     def ANY(self, t):
         ":meta private:"
         t.value = ast.Any()
         return t
 
-    @_(r"all")
+    @_(r"all" + _NOT_IDENTIFIER)
     def ALL(self, t):
         ":meta private:"
         t.value = ast.All()
